@@ -9,6 +9,7 @@
 import KiraModel.Proofs.RealOps
 import KiraModel.Model.RendererFinal
 import KiraModel.Props.C01_system
+import KiraModel.Props.C01_full
 import Mathlib.Tactic.Linarith
 import Mathlib.Tactic.NormNum
 
